@@ -43,7 +43,7 @@ CALLS = {
                  (('x',), {'k': None})],
     'H,a': [(('x',), {}), ((), {'a': 'x'})],
     'a,*rest': [(('x', 'y', 'z'), {}), (('x',), {})],
-    'a,**kw': [(('x',), {'q': 'y'}), (('x',), {})],
+    'a,**kw': [(('x',), {'q': 'y'}), (('x',), {}), (('x',), {'q': None})],
     'a,H,b': [(('x', 'y'), {}), (('x',), {'b': 'y'})],
     'H,a,H,b': [(('x', 'y'), {}), (('x',), {'b': 'y'})],
 }
@@ -335,9 +335,10 @@ def map_verdicts(repo):
     for sig, calls in CALLS.items():
         for call in calls:
             exp = _expected_slots(sig, call)
+            hidden = {p[0] for p in SIGNATURES[sig] if p[2] == 'hidden'}
             supplied = [] if exp == 'reject' else [
                 (k, v) for k, v in exp[0] + list(exp[1].values())
-                if v is not None and not str(v).startswith('default:')]
+                if k not in hidden and not str(v).startswith('default:')]
             for failing in [None] + supplied:
                 desc = 'f(%s) mapped onto %s %s%s' % (
                     sig, list(call[0]), call[1],
@@ -367,7 +368,7 @@ def map_verdicts(repo):
                 if not accepted:
                     continue
                 checks = sorted(((t[1], t[2]) for t in trace
-                                 if t[0] == 'check' and t[2] is not None
+                                 if t[0] == 'check' and t[1] not in hidden
                                  and not str(t[2]).startswith('default:')),
                                 key=str)
                 need = sorted(((k, v) for k, v in supplied
